@@ -227,3 +227,47 @@ Lemma stream_reads_first_refuted_proof :
   stream_sees ReaderReadsFirst true [] = None /\
   stream_sees ReaderFixed true [] = Some (NDir stream_root_meta [] [], []).
 Proof. repeat split; vm_compute; reflexivity. Qed.
+
+(* ---------- whatever regroup consumes is in the tree it returns ---------- *)
+Definition hs (nc : bytes * node) : list node := heads (snd nc).
+
+Lemma regroup_group_consume : forall fuel,
+  (forall evs t rest, regroup fuel evs = Some (t, rest) -> event_heads evs = heads t ++ event_heads rest) /\
+  (forall dirp evs acc cs rest, group fuel dirp evs acc = Some (cs, rest) ->
+     flat_map hs acc ++ event_heads evs = flat_map hs cs ++ event_heads rest).
+Proof.
+  induction fuel as [|f [IHr IHg]]; [split; intros; discriminate|]. split.
+  - intros evs t rest H. destruct evs as [|[[p nm] h] ev]; [discriminate|].
+    rewrite regroup_S in H. destruct h as [m xs ch| | | |];
+      try (inversion H; subst; reflexivity).
+    destruct (group f p ev []) as [[cs rest']|] eqn:E; [|discriminate]. inversion H; subst.
+    pose proof (IHg _ _ _ _ _ E) as Hq. cbn [flat_map app] in Hq.
+    cbn [event_heads map snd head_of heads]. fold (event_heads ev). rewrite Hq. reflexivity.
+  - intros dirp evs acc cs rest H. destruct evs as [|[[p nm] h] ev].
+    + inversion H; subst. reflexivity.
+    + rewrite group_S in H. destruct (beq (dir p) dirp).
+      * destruct (regroup f ((p, nm, h) :: ev)) as [[c rest1]|] eqn:E; [|discriminate].
+        pose proof (IHr _ _ _ E) as Hp. pose proof (IHg _ _ _ _ _ H) as Hq.
+        rewrite flat_map_app in Hq. cbn [flat_map] in Hq. rewrite app_nil_r in Hq. unfold hs at 2 in Hq. cbn [snd] in Hq.
+        exact (eq_trans (f_equal (app (flat_map hs acc)) Hp) (eq_trans (app_assoc _ _ _) Hq)).
+      * inversion H; subst. reflexivity.
+Qed.
+
+(* Tar() == nil (with the check of 4e00255): every file the reader delivered is a node of the
+   archive, in order *)
+Theorem stream_tar_complete_proof : forall add_root members t,
+  stream_tar LeftoverRefused add_root members = TarOk t ->
+  event_heads (reader_events ReaderFixed add_root members) = heads t.
+Proof.
+  intros add_root members t. unfold stream_tar, stream_sees.
+  destruct (reader_events ReaderFixed add_root members) as [|e evs] eqn:E; [discriminate|].
+  destruct (regroup (2 * length (e :: evs) + 2) (e :: evs)) as [[t' rest]|] eqn:R; [|discriminate].
+  destruct rest as [|x rest]; [|discriminate]. cbn [tar_outcome_of]. intros H. inversion H; subst.
+  pose proof (proj1 (regroup_group_consume _) _ _ _ R) as Hc. cbn [event_heads map] in Hc. rewrite app_nil_r in Hc. exact Hc.
+Qed.
+
+Lemma stream_leftover_refuted_proof :
+  stream_tar LeftoverIgnored false (members_of ex_stream_members) = TarOk (NFile ex_meta [] [1]%N) /\
+  stream_tar LeftoverRefused false (members_of ex_stream_members) = TarError /\
+  stream_tar LeftoverRefused true (members_of ex_stream_members) = TarOk (NDir stream_root_meta [] ex_stream_members).
+Proof. repeat split; vm_compute; reflexivity. Qed.
